@@ -2,7 +2,7 @@
    identities get different names (Spec.must_differ) and the model gives them the same name,
    there is a collision of truncated digests of two different texts (at least 11 characters). *)
 From Coq Require Import List NArith Arith Bool Lia.
-From Verif.C37 Require Import Model Spec Proofs Families More.
+From Verif.C37 Require Import Model Spec Proofs Families More Statics.
 Import ListNotations.
 
 (* ---------- reflexivity of the boolean equalities ---------- *)
@@ -173,6 +173,14 @@ Proof.
     repeat (destruct D as [D|D]; [subst; destruct i; vm_compute; discriminate|]). contradiction.
 Qed.
 
+Definition is_static (i : ident) : bool := match i with IdStaticChain _ => true | _ => false end.
+
+(* the one clash between a fixed chain name and a built one: cali-arp-dispatch *)
+Definition arp_clash (a b : ident) : Prop :=
+  exists k nft, nth_error static_chains k = Some arp_dispatch /\
+    ((a = IdStaticChain k /\ b = IdEndpoint pfx_arp iface_dispatch nft) \/
+     (b = IdStaticChain k /\ a = IdEndpoint pfx_arp iface_dispatch nft)).
+
 Section Meets.
   Variable clamp : bool.
   Variables H256 H224 H3 H1 : bytes -> bytes.
@@ -287,14 +295,15 @@ Section Meets.
     right. exists 41. split; [lia|]. left. exists a, b. split; assumption.
   Qed.
 
-  Theorem apart_mod_hash : forall a b n,
+  Theorem apart_core : forall a b n,
+    is_static a = false -> is_static b = false ->
     must_differ a b = true -> name a = Some n -> name b = Some n -> coll.
   Proof.
-    intros a b n M Ga Gb. unfold must_differ in M.
+    intros a b n NSa NSb M Ga Gb. unfold must_differ in M.
     apply andb_true_iff in M. destruct M as [M NE]. apply andb_true_iff in M. destruct M as [M Db].
     apply andb_true_iff in M. destruct M as [S Da]. apply negb_true_iff in NE.
     assert (AB : a = b -> coll) by (intro; subst; rewrite ident_eqb_refl in NE; discriminate).
-    destruct a, b; unfold same_space in S; cbn [space_of] in S; try discriminate S;
+    destruct a, b; try discriminate NSa; try discriminate NSb; unfold same_space in S; cbn [space_of] in S; try discriminate S;
       try (apply eqb_prop in S; subst;
            match type of Ga with name ?a = _ => match type of Gb with name ?b = _ =>
              destruct (chain_chain a b _ _ _ _ _ _ eq_refl eq_refl Da Db Ga Gb) as [E|C]; [exact (AB E)|exact C] end end);
@@ -360,6 +369,52 @@ Section Meets.
       + subst. exact (AB eq_refl).
       + exists k. split; [exact Lk|]. left. exact C.
   Qed.
+  (* a fixed chain name against a built one *)
+  Lemma static_vs_built : forall k b n,
+    is_static b = false -> same_space (IdStaticChain k) b = true -> in_domain b = true ->
+    nth_error static_chains k = Some n -> name b = Some n ->
+    exists nft, n = arp_dispatch /\ b = IdEndpoint pfx_arp iface_dispatch nft.
+  Proof.
+    intros k b n NS S Db Gk Gb. pose proof (nth_error_In _ _ Gk) as Is.
+    destruct b; try discriminate NS; unfold same_space in S; cbn [space_of] in S; try discriminate S.
+    - (* policy *) exfalso. simpl in Gb. unfold policy_chain in Gb.
+      destruct (gllid_prefix _ _ _ _ _ _ Gb) as [x [E _]]. symmetry in E.
+      destruct (static_apart _ _ _ Is (policy_pfx_in inbound) E) as [P _]. destruct inbound; vm_compute in P; discriminate P.
+    - (* profile *) exfalso. simpl in Gb. unfold profile_chain in Gb.
+      destruct (gllid_prefix _ _ _ _ _ _ Gb) as [x [E _]]. symmetry in E.
+      destruct (static_apart _ _ _ Is (profile_pfx_in inbound) E) as [P _]. destruct inbound; vm_compute in P; discriminate P.
+    - (* endpoint *) cbn [in_domain] in Db. apply andb_true_iff in Db. destruct Db as [D1 D2].
+      apply endpoint_in in D1. apply nonempty_ne in D2. simpl in Gb. unfold endpoint_chain in Gb.
+      destruct (shortened_dec clamp pfx iface (max_chain nft)) as [Sh|Sh].
+      + exfalso. destruct (gllid_short _ _ _ _ _ _ Gb Sh) as [_ [E _]]. symmetry in E.
+        destruct (static_apart _ _ _ Is (endpoint_pfx_in _ D1) E) as [_ [_ X]]. vm_compute in X. discriminate X.
+      + pose proof (gllid_long _ _ _ _ _ _ Gb Sh) as E. rewrite (eff_id _ D2) in E. symmetry in E.
+        destruct (static_apart _ _ _ Is (endpoint_pfx_in _ D1) E) as [P [Sn X]]. subst. exists nft. auto.
+    - (* group *) exfalso. simpl in Gb. injection Gb as Gb. unfold group_chain in Gb.
+      destruct (static_apart _ _ _ Is (group_pfx_in inbound) Gb) as [P _]. destruct inbound; vm_compute in P; discriminate P.
+  Qed.
+
+  Lemma same_space_sym_static : forall a k, same_space a (IdStaticChain k) = same_space (IdStaticChain k) a.
+  Proof. destruct a; reflexivity. Qed.
+
+  Theorem apart_mod_hash : forall a b n,
+    must_differ a b = true -> name a = Some n -> name b = Some n -> coll \/ arp_clash a b.
+  Proof.
+    intros a b n M Ga Gb.
+    destruct (is_static a) eqn:SA; destruct (is_static b) eqn:SB.
+    - (* two fixed names *) exfalso. destruct a; try discriminate SA. destruct b; try discriminate SB.
+      simpl in Ga, Gb. pose proof (static_index_inj _ _ _ Ga Gb). subst.
+      unfold must_differ in M. simpl in M. rewrite Nat.eqb_refl in M. rewrite !andb_false_r in M. discriminate M.
+    - destruct a; try discriminate SA. unfold must_differ in M.
+      apply andb_true_iff in M. destruct M as [M _]. apply andb_true_iff in M. destruct M as [M Db].
+      apply andb_true_iff in M. destruct M as [S _]. simpl in Ga.
+      destruct (static_vs_built _ _ _ SB S Db Ga Gb) as [nft [En Eb]]. subst. right. exists k, nft. split; [exact Ga|left; split; reflexivity].
+    - destruct b; try discriminate SB. unfold must_differ in M.
+      apply andb_true_iff in M. destruct M as [M _]. apply andb_true_iff in M. destruct M as [M _].
+      apply andb_true_iff in M. destruct M as [S Da]. simpl in Gb. rewrite same_space_sym_static in S.
+      destruct (static_vs_built _ _ _ SA S Da Gb Ga) as [nft [En Eb]]. subst. right. exists k, nft. split; [exact Gb|right; split; reflexivity].
+    - left. exact (apart_core a b n SA SB M Ga Gb).
+  Qed.
 End Meets.
 
 (* ---------- the specification oracle accepts what the model produces ---------- *)
@@ -386,33 +441,44 @@ Section Oracle.
     - apply nflog_fits in G. exact G.
     - inversion G. apply veth_fits.
     - eapply vm_handle_fits; eauto.
+    - apply nth_error_In in G. apply static_fits. exact G.
   Qed.
 
-  Lemma model_pair_ok : ~ strong_collision H256 H224 H3 H1 -> forall a b, ok_pair (model_obs a) (model_obs b) = true.
+  Lemma model_pair_ok : ~ strong_collision H256 H224 H3 H1 -> forall a b, ~ arp_clash a b ->
+    ok_pair (model_obs a) (model_obs b) = true.
   Proof.
-    intros NC a b. unfold ok_pair, model_obs. simpl.
+    intros NC a b NA. unfold ok_pair, model_obs. simpl.
     destruct (must_differ a b) eqn:M; [|reflexivity].
     destruct (name a) as [x|] eqn:Ga; [|reflexivity]. destruct (name b) as [y|] eqn:Gb; [|reflexivity].
     destruct (beq x y) eqn:E; [|reflexivity]. apply beq_eq in E. subst y.
-    exfalso. apply NC. eapply apart_mod_hash; eauto.
+    exfalso. destruct (apart_mod_hash clamp H256 H224 H3 H1 HL224 HC224 a b x M Ga Gb); tauto.
   Qed.
 
   Lemma oname_eqb_refl : forall x, oname_eqb x x = true.
   Proof. destruct x; simpl; [apply beq_refl|reflexivity]. Qed.
 
-  (* every list of identities for which the model returns names is accepted by the oracle,
-     unless two different texts have the same truncated digest *)
-  Theorem oracle_accepts_model : ~ strong_collision H256 H224 H3 H1 -> forall l,
-    (forall i, In i l -> name i <> None) -> ok_case_obs (map model_obs l) = true.
+  Lemma ok_apart_pairs : forall l,
+    (forall a b, In a l -> In b l -> ok_pair (model_obs a) (model_obs b) = true) -> ok_apart (map model_obs l) = true.
   Proof.
-    intros NC l T. unfold ok_case_obs. apply andb_true_iff. split; [apply andb_true_iff; split|].
+    induction l as [|a l IH]; intro P; simpl; [reflexivity|]. apply andb_true_iff. split.
+    - apply forallb_forall. intros o I. apply in_map_iff in I. destruct I as [i [E I]]. subst o.
+      apply P; [left; reflexivity|right; exact I].
+    - apply IH. intros x y Ix Iy. apply P; right; assumption.
+  Qed.
+
+  (* every list of identities for which the model returns names is accepted by the oracle, unless two different
+     texts have the same truncated digest or the list holds both sides of the cali-arp-dispatch clash *)
+  Theorem oracle_accepts_model : ~ strong_collision H256 H224 H3 H1 -> forall l,
+    (forall i, In i l -> name i <> None) ->
+    (forall a b, In a l -> In b l -> ~ arp_clash a b) ->
+    ok_case_obs (map model_obs l) = true.
+  Proof.
+    intros NC l T NA. unfold ok_case_obs. apply andb_true_iff. split; [apply andb_true_iff; split|].
     - apply forallb_forall. intros o I. apply in_map_iff in I. destruct I as [i [E I]]. subst o.
       unfold ok_fit, model_obs. simpl. destruct (name i) as [n|] eqn:G; [|exfalso; exact (T i I G)].
       destruct (limit i) as [m|] eqn:L; [|reflexivity]. apply Nat.leb_le. eapply model_fits; eauto.
     - apply forallb_forall. intros o I. apply in_map_iff in I. destruct I as [i [E I]]. subst o.
       unfold ok_same, model_obs. simpl. apply oname_eqb_refl.
-    - clear T. induction l as [|a l IH]; simpl; [reflexivity|]. apply andb_true_iff. split; [|exact IH].
-      apply forallb_forall. intros o I. apply in_map_iff in I. destruct I as [i [E I]]. subst o.
-      apply model_pair_ok. exact NC.
+    - apply ok_apart_pairs. intros a b Ia Ib. apply model_pair_ok; [exact NC|apply NA; assumption].
   Qed.
 End Oracle.
